@@ -94,7 +94,7 @@ Definition check (c : case) : nat :=
   match c with
   | CParse k base j obs =>
       let m := model_parse k base j in
-      verdict (negb (res_eqb json_eqb m obs)) (negb (ok_parse k j obs))
+      verdict (negb (res_eqb json_equiv m obs)) (negb (ok_parse k j obs))
               (match j with JObj _ | JArr _ => true | _ => false end) 0
   | CHist ops obs =>
       verdict (negb (list_eqb hobs_eqb (model_hist ops) obs)) (negb (ok_hist ([], []) ops obs))
